@@ -369,6 +369,21 @@ class Shaper:
             # comprehensions: evaluate element for tokens inside a pseudo loop
             sub = []
             env2 = dict(env)
+            g0 = e.generators[0]
+            gen = self._codec_method(f, g0.iter, env) if len(e.generators) == 1 and isinstance(g0.iter, ast.Call) else None
+            if gen is not None and gen.is_generator():
+                # a comprehension over a generator of the codec class is the loop over it: the element is
+                # evaluated at every `yield`
+                self._target(g0.target, "item", env2)
+                for c in g0.ifs:
+                    self._expr(f, c, env2, sub)
+                if isinstance(e, ast.DictComp):
+                    self._expr(f, e.key, env2, sub)
+                    self._expr(f, e.value, env2, sub)
+                else:
+                    self._expr(f, e.elt, env2, sub)
+                self._inline(gen, g0.iter, f, env, out, yield_body=sub)
+                return "comp"
             for g in e.generators:
                 it = self._expr(f, g.iter, env2, out)
                 self._target(g.target, f"each({it})", env2)
